@@ -164,11 +164,21 @@ def _coerce_stmt(t, n):
         return "%s = _mv_arg(%s, %d)" % (n, n, t.count(':'))
     if t.startswith('long[') or t.startswith('int['):
         return "%s = _mv_arg(%s, %d, np.int64)" % (n, n, t.count(':'))
-    if t in ('double', 'float'):
+    if t == 'float':
+        return "%s = _f32(%s)" % (n, n)
+    if t == 'double':
         return "%s = float(%s)" % (n, n)
     if t in ('int', 'long', 'bint', 'Py_ssize_t'):
         return "%s = int(%s)" % (n, n)
     return None
+
+
+def _f32(x):
+    """C `float`: round to IEEE binary32"""
+    return float(np.float32(x))
+
+
+F32_NAMES = {}      # function-local names declared `cdef float`, per translated source (keyed by id of the line list)
 
 
 def _strip_comment(ln):
@@ -176,10 +186,13 @@ def _strip_comment(ln):
     return ln.split('#')[0]
 
 
-def translate(src):
+def translate(src, f32=None):
     lines = src.replace('\r\n', '\n').split('\n')
     out = []
     i = 0
+    if f32 is None:
+        f32 = {}
+    cur_fn = "<module>"
     while i < len(lines):
         ln = lines[i]
         code = _strip_comment(ln)
@@ -208,6 +221,7 @@ def translate(src):
                 if c:
                     coer.append(c)
             ind = m.group('ind')
+            cur_fn = m.group('name')
             out.append("%sdef %s(%s):" % (ind, m.group('name'), ', '.join(params)))
             out.extend([''] * (j - i))
             out.append(ind + '    ' + ('; '.join(coer) if coer else 'pass'))
@@ -232,11 +246,19 @@ def translate(src):
                     out.append("%s%s = MV(%s)" % (ind, n, e))
                 elif t in ('int', 'long', 'Py_ssize_t'):
                     out.append("%s%s = int(%s)" % (ind, n, e))
-                elif t in ('double', 'float'):
+                elif t == 'float':
+                    f32.setdefault(cur_fn, set()).add(n)
+                    out.append("%s%s = _f32(%s)" % (ind, n, e))
+                elif t == 'double':
                     out.append("%s%s = float(%s)" % (ind, n, e))
                 else:
                     out.append("%s%s = %s" % (ind, n, e))
             else:
+                if t == 'float':
+                    for nm in rest.split(','):
+                        nm = nm.strip()
+                        if re.match(r'^\w+$', nm):
+                            f32.setdefault(cur_fn, set()).add(nm)
                 out.append(ind + 'pass')
             i += 1
             continue
@@ -247,6 +269,37 @@ def translate(src):
         out.append(ln2)
         i += 1
     return '\n'.join(out)
+
+
+class _F32Tx(ast.NodeTransformer):
+    """every assignment to a name declared `cdef float` in the enclosing function is rounded to binary32"""
+    def __init__(self, per_function):
+        self.per_function = per_function
+        self.names = per_function.get("<module>", set())
+
+    def visit_FunctionDef(self, node):
+        outer = self.names
+        self.names = self.per_function.get(node.name, set()) | self.per_function.get("<module>", set())
+        self.generic_visit(node)
+        self.names = outer
+        return node
+
+    def _wrap(self, v):
+        return ast.Call(func=ast.Name(id='_f32', ctx=ast.Load()), args=[v], keywords=[])
+
+    def visit_Assign(self, node):
+        self.generic_visit(node)
+        if len(node.targets) == 1 and isinstance(node.targets[0], ast.Name) and node.targets[0].id in self.names:
+            node.value = self._wrap(node.value)
+        return node
+
+    def visit_AugAssign(self, node):
+        self.generic_visit(node)
+        if isinstance(node.target, ast.Name) and node.target.id in self.names:
+            load = ast.Name(id=node.target.id, ctx=ast.Load())
+            return ast.copy_location(ast.Assign(targets=[node.target],
+                                                value=self._wrap(ast.BinOp(left=load, op=node.op, right=node.value))), node)
+        return node
 
 
 class _DivTx(ast.NodeTransformer):
@@ -273,16 +326,19 @@ class _DivTx(ast.NodeTransformer):
 def load(path, modname, extra=None):
     with open(path) as f:
         src = f.read()
-    py = translate(src)
+    f32 = {}
+    py = translate(src, f32)
     try:
         tree = ast.parse(py, filename=path)
     except SyntaxError as e:
         raise EmuUnsupported("transliteration of %s is not valid Python: %s" % (path, e))
+    if f32:
+        tree = _F32Tx(f32).visit(tree)
     tree = ast.fix_missing_locations(_DivTx().visit(tree))
     mod = types.ModuleType(modname)
     mod.__file__ = path + " [emulated]"
     ns = mod.__dict__
-    ns.update(np=np, MV=MV, _mv_arg=_mv_arg, _cdiv=_cdiv, fabs=fabs, fmax=fmax, fmin=fmin,
+    ns.update(np=np, MV=MV, _mv_arg=_mv_arg, _cdiv=_cdiv, _f32=_f32, fabs=fabs, fmax=fmax, fmin=fmin,
               exp=math.exp, fmod=math.fmod, sqrt=math.sqrt)
     if extra:
         ns.update(extra)
